@@ -53,6 +53,18 @@ var depthCases = []depthCase{
 	{"... while main's own object of that name is caught by it",
 		"导入“甲”的F\n定义错误：\n    其内容 = “main's”\n如何G？\n    抛出错误：1！\n    拦截错误：\n        输出其内容\n输出（G）",
 		"main's", map[string]string{"甲": "定义错误：\n    其内容 = “module's”\n如何F？\n    抛出错误：1！\n"}},
+	{"two methods each declare a LOCAL type of the same name: the handler written with the outer method's type lets the inner method's object pass",
+		"如何内层？\n    定义故障：\n        其内容 = “内层的故障”\n    抛出故障：1！\n如何外层？\n    定义故障：\n        其内容 = “外层的故障”\n    输出（内层）\n    拦截故障：\n        输出“外层拦截”\n令果 = （外层）\n输出“到不了”",
+		"error", nil},
+	{"a local type shadows the program's type of the same name: the program's handler lets the local type's object pass",
+		"定义故障：\n    其内容 = “主程序的故障”\n如何触发？\n    定义故障：\n        其内容 = “方法内的故障”\n    抛出故障：1！\n（触发）\n输出“到不了”\n拦截故障：\n    输出“被拦截”",
+		"error", nil},
+	{"... while a local type is caught by the handler of the method that declares it",
+		"定义故障：\n    其内容 = “主程序的故障”\n如何触发？\n    定义故障：\n        其内容 = “方法内的故障”\n    抛出故障：1！\n    拦截故障：\n        输出其内容\n输出（触发）",
+		"方法内的故障", nil},
+	{"... and the program's type, thrown after a call that handled its own local type of that name, by the program's handler",
+		"定义故障：\n    其内容 = “主程序的故障”\n如何触发？\n    定义故障：\n        其内容 = “方法内的故障”\n    抛出故障：1！\n    拦截故障：\n        输出其内容\n（触发）\n抛出故障：1！\n拦截故障：\n    输出其内容",
+		"主程序的故障", nil},
 	{"not handled at all: the program ends with the fault",
 		endless + "（无尽：1）\n输出“到不了”",
 		"error", nil},
